@@ -191,6 +191,26 @@ def A3_fragment_typestate(repo, clause):
                     ev.append("WRAP")
                 elif c.func.value.id == S and c.func.attr == "extend" and c in RL.extend_calls:
                     ev.append("CONSUME")
+            # the fragment handed to a function of the package that modifies it: the callee's stores into that parameter are the events
+            if isinstance(c.func, ast.Name) and any(isinstance(a_, ast.Name) and a_.id == F for a_ in c.args):
+                callee = repo.maybe_fn(c.func.id)
+                if callee is not None:
+                    idx = [i_ for i_, a_ in enumerate(c.args) if isinstance(a_, ast.Name) and a_.id == F][0]
+                    if idx < len(callee.params):
+                        pn = callee.params[idx]
+                        if pn in repo.effects.mut[callee]:
+                            inner = set()
+                            for n2 in callee.own_nodes():
+                                if isinstance(n2, ast.Assign):
+                                    for t2 in n2.targets:
+                                        if isinstance(t2, ast.Attribute) and t2.attr == "positions" and isinstance(t2.value, ast.Name) and t2.value.id == pn:
+                                            inner.add(_classify_position_store(callee, n2, n2.value, pn))
+                                elif isinstance(n2, ast.AugAssign) and isinstance(n2.target, ast.Attribute) and n2.target.attr == "positions" \
+                                        and isinstance(n2.target.value, ast.Name) and n2.target.value.id == pn:
+                                    inner.add("WRAP" if isinstance(n2.op, ast.Mod) else ("TRANSLATE" if isinstance(n2.op, (ast.Add, ast.Sub)) else "OTHERSTORE"))
+                            ev.append(inner.pop() if len(inner) == 1 else "HELPER(%s)" % c.func.id)
+                elif not isinstance(c.func, ast.Attribute):
+                    pass
         return ev
 
     paths = loop_paths(fn, RL.loop)
@@ -210,7 +230,9 @@ def A3_fragment_typestate(repo, clause):
                       "path #%d through the per-match loop (ends at %s) drives the inserted fragment through %s; required %s"
                       % (npaths, "next iteration" if end is RL.loop else ("raise" if end is fn.cfg.RAISE else "loop exit"),
                          " < ".join(seq) or "(nothing)", " < ".join(want)),
-                      construct="for ... in %s" % ast.unparse(RL.loop.iter), slot="path%d" % npaths))
+                      construct="for ... in %s" % ast.unparse(RL.loop.iter), slot="path%d" % npaths,
+                      # every event on the path is a recognised one and the fragment IS consumed, but not after create < rotate < translate < wrap: a wrong order or a missing step
+                      positive=(not ok) and "CONSUME" in seq and set(seq) <= set(want)))
     floor("A3", "paths through the per-match loop", npaths, 2)
     # bulk delete: exactly one, outside any loop, after every insertion, on every path to the return
     cfg = fn.cfg
@@ -831,7 +853,8 @@ def A6_rotation_gate(repo, clause):
         want = ["CREATE", "ROTATE", "TRANSLATE", "CHECK"]
         obs.append(Ob("A6", clause, fn, cand_loop, seq == want,
                       "candidate-loop path #%d: checked copy goes through %s (required %s)" % (npth, " < ".join(seq), " < ".join(want)),
-                      construct="for ... in %s" % ast.unparse(cand_loop.iter), slot="chk-typestate-path%d" % npth))
+                      construct="for ... in %s" % ast.unparse(cand_loop.iter), slot="chk-typestate-path%d" % npth,
+                      positive=seq != want and "CHECK" in seq and set(seq) <= set(want)))
         okq = n_rot_append == 1 and qdefs_at_append is not None and rotq is not None and qdefs_at_append[0] == rotq \
             and qdefs_at_append[1] == qdefs_at_rot
         obs.append(Ob("A6", clause, fn, cand_loop, okq,
@@ -1042,8 +1065,23 @@ def A1w_who_may_mutate(repo, clause, roots=("replace_pattern_in_structure", "fin
                           "method %s (reachable from the read-only entry points) mutates %s; only `self` is allowed" % (fn.qualname, sorted(muts) or "nothing"),
                           construct="def %s" % fn.name, slot="method", positive=True))
         else:
-            obs.append(Ob("A1w", clause, fn, fn.node, not muts,
-                          "function %s (reachable from the read-only entry points) mutates parameter(s) %s" % (fn.qualname, sorted(muts) or "none"),
+            # a helper that mutates its argument is harmless as long as every reachable caller hands it a FRESH object (a per-match copy);
+            # it is a violation when some caller passes a value that may alias one of ITS parameters
+            borrowed = []
+            if muts:
+                for f2 in seen:
+                    for a_ in eff.apps.get(f2, []):
+                        if isinstance(a_.node, ast.Call):
+                            cal, _k = eff.resolve(f2, a_.node)
+                            if cal is fn and a_.params():
+                                borrowed.append((f2, a_))
+            ok_ = (not muts) or not borrowed
+            obs.append(Ob("A1w", clause, fn, fn.node, ok_,
+                          "function %s (reachable from the read-only entry points) mutates parameter(s) %s%s" % (
+                              fn.qualname, sorted(muts) or "none",
+                              "" if not muts else ("; every caller hands it a fresh object" if ok_ else
+                                                   "; %s passes a value that may alias its own parameter %s" % (borrowed[0][0].qualname, sorted(borrowed[0][1].params()))),
+                          ),
                           construct="def %s" % fn.name, slot="function", positive=True))
     floor("A1w", "functions reachable from the entry points", len(obs), 15 if len(roots) >= 5 else 5)
     return obs
